@@ -482,3 +482,19 @@ def assigned_targets(st):
                 if d:
                     out.append(d + "[]")
     return out
+
+
+def sig_body(fnode_or_list):
+    """statements of a function body that matter: docstrings, `pass` and bare print(...) calls are dropped
+    (debug output is behaviour-preserving for every rule)"""
+    body = fnode_or_list if isinstance(fnode_or_list, list) else fnode_or_list.body
+    out = []
+    for b in body:
+        if isinstance(b, ast.Pass):
+            continue
+        if isinstance(b, ast.Expr) and isinstance(b.value, ast.Constant):
+            continue
+        if isinstance(b, ast.Expr) and isinstance(b.value, ast.Call) and isinstance(b.value.func, ast.Name) and b.value.func.id == "print":
+            continue
+        out.append(b)
+    return out
